@@ -1,5 +1,7 @@
 package c08
 
+import "strings"
+
 // seedTemplates: the expressions of rare's own tests and documentation (file
 // names replaced by the scratch-file placeholder) plus the inputs of the
 // crashes known when the check was written. They are evaluated as they are
@@ -59,6 +61,28 @@ var seedTemplates = []string{
 	"{! [0] % [1]}", "{! 5 % 0}", "{! 1 << [0]}", "{! 1 >> [0]}", "{! -}", "{! 2 * -}", "{! x& &x}", "{! 1< <2}",
 	// syntax oddities
 	"{", "}", "{{", "}}", "{}", "{ }", "\"", "\\", "{\\", "{\"", "{\"}", "{a \"b}", "{{{{{{{{", "{tab \"a } b\" x}", "{tab \"a { b\" x}", "{tab a\"b c\"d}", "{{1}}", "{01}", "{+1}", "{ 1 }", "{1.0}", "{-1}", "{99999999999999999999}",
+}
+
+// deep / long shapes (bounded: the compiler re-scans the rest of the text at
+// every nesting level, so its honest cost is quadratic in the depth)
+func init() {
+	rep := strings.Repeat
+	seedTemplates = append(seedTemplates,
+		rep("{tab ", 400)+"{0}"+rep("}", 400),
+		rep("{", 2000),
+		rep("}", 2000),
+		rep("{{0} ", 300)+rep("}", 300),
+		rep("\\", 2001),
+		rep("\"", 1001),
+		"{! "+rep("(", 300)+"[0]"+rep(")", 300)+"}",
+		"{! "+rep("-", 1500)+"[0]}",
+		"{! "+rep("1+", 800)+"[0]}",
+		"{! "+rep("abs(", 200)+"[0]"+rep(")", 200)+"}",
+		"{sumi"+rep(" {0}", 600)+"}",
+		"{@map "+rep("{@map ", 40)+"{0}"+rep(" {0}}", 40)+" {0}}",
+		"{switch"+rep(" {0} {1}", 400)+"}",
+		"{format "+rep("%s", 500)+rep(" {0}", 500)+"}",
+	)
 }
 
 // fixedContexts are evaluated against every seed template.
